@@ -671,6 +671,10 @@ struct Ev {
     payload: usize,
     /// incompressible filler (so that gzip output stays large) instead of a repetitive one
     noisy: bool,
+    /// the well-known keys appear a second time, later in the property list, with contrary values: `Props` defines the
+    /// first value of a key as the one that counts (that is how event properties shadow ambient ones), so these must
+    /// change nothing
+    shadow: bool,
 }
 
 fn route(ev: &Ev, signals: &BTreeSet<Signal>) -> Option<Signal> {
@@ -774,6 +778,24 @@ fn emit_one(otlp: &emit_otlp::Otlp, ev: &Ev, n: u64) {
             }
         }
         Kind::Unknown => props.push(("evt_kind", emit::Value::from("something_else"))),
+    }
+    if ev.shadow {
+        // only keys that already have a (first, effective) value can be shadowed
+        if ev.kind != Kind::None {
+            props.push(("evt_kind", match ev.kind {
+                Kind::Metric => emit::Value::from_any(&emit::Kind::Span),
+                _ => emit::Value::from_any(&emit::Kind::Metric),
+            }));
+        }
+        if ev.kind == Kind::Metric && ev.mval != MVal::Missing {
+            props.push(("metric_value", match ev.mval {
+                MVal::Number | MVal::Sequence => emit::Value::from("n/a"),
+                _ => emit::Value::from(42i64),
+            }));
+        }
+        if ev.kind == Kind::Metric && ev.agg.is_some() {
+            props.push(("metric_agg", emit::Value::from("sum")));
+        }
     }
     // several scopes in one batch: requests group their items by module
     let mdl = match n % 3 {
@@ -887,6 +909,7 @@ impl Engine for OtlpSim {
                     agg: Some("count"),
                     payload: 0,
                     noisy: false,
+                    shadow: false,
                 });
                 continue;
             }
@@ -945,6 +968,7 @@ impl Engine for OtlpSim {
                 agg,
                 payload,
                 noisy,
+                shadow: c14 && ch.chance(1, 5),
             });
         }
         // client program
@@ -1077,7 +1101,7 @@ impl Engine for OtlpSim {
                                     sc.set_nonblocking(None);
                                     emitted += 1;
                                     clog.lock().unwrap().emitted.push((i, sc.now()));
-                                    sc.log(format!("emitted {} ({:?}/{:?}/{:?}/agg {:?}, {} payload bytes{})", events[i].marker, events[i].kind, events[i].ext, events[i].mval, events[i].agg, events[i].payload, if events[i].noisy { ", incompressible" } else { "" }));
+                                    sc.log(format!("emitted {} ({:?}/{:?}/{:?}/agg {:?}, {} payload bytes{}{})", events[i].marker, events[i].kind, events[i].ext, events[i].mval, events[i].agg, events[i].payload, if events[i].noisy { ", incompressible" } else { "" }, if events[i].shadow { ", well-known keys shadowed" } else { "" }));
                                 }
                                 Step::Sleep(ms) => sc.sleep(Duration::from_millis(ms)),
                                 Step::Burst(from, to) => {
